@@ -66,8 +66,8 @@ class C03(DiffProperty):
                   "need no slack. Tied to the code by differential execution (return code, full state and buffer image after every call) incl. the "
                   "exhaustive small-string sweep")
     level_note = ("partial: (1) completeness (a well-formed frame IS delivered given enough gap) is proved for the block loop, not lifted to call "
-                  "histories; (2) the call-level history theorem stops at the first error result: resumption after MissingBuffer in the middle of a ZPE "
-                  "zero pair and peek mode are covered by the correspondence run only. mpt_decode_command is not covered. "
+                  "histories; (2) peek mode is covered by the correspondence run only (the call-level history theorem continues through MissingBuffer, "
+                  "incl. resumption in the middle of a ZPE zero pair after the caller made room, and ends at a genuine decoding error). mpt_decode_command is not covered. "
                   "Termination: the model is structurally recursive on the input (each byte read at most once); C-level termination is observed (per-case timeout). "
                   "All theorems closed under the global context.")
     technique = "Coq proofs over the in-place decoder model (safety region, gap invariant, honesty, completeness) + exhaustive small-scope differential check"
